@@ -15,11 +15,11 @@ def st (l : List (String × Ty)) : Ty :=
 def sv (l : List Val) : Val := .struct (Vals.ofList l)
 def mp (l : List Val) : Val := .map (Vals.ofList l)
 
-/-- bytes | model round trip | reference decode | canonical-equal to the original (model, reference) |
+/-- bytes | model round trip | reference decodeU | canonical-equal to the original (model, reference) |
 hypotheses of the theorems (tyOKM, hasTypeM, valOKM) | known classes -/
 def rtm (t : Ty) (v : Val) : String :=
   let b := marshal t v
-  let r := unmarshal t b
+  let r := unmarshalU t b
   let d := Spec.Protobuf.decode t b
   let okm := match r with
     | .ok v' => (canonical t v').show == (canonical t v).show
@@ -152,7 +152,7 @@ example : (Spec.Protobuf.decode (.struct exMFields) (marshal (.struct exMFields)
   decode_marshal_map_partial exMFields _ exM_ty exM_val exM_ok exM_len
 
 /-- Part 3 on the example -/
-example : ∃ v', unmarshal (.struct exMFields) (marshal (.struct exMFields) (.struct exMVals)) = .ok v'
+example : ∃ v', unmarshalU (.struct exMFields) (marshal (.struct exMFields) (.struct exMVals)) = .ok v'
     ∧ canonical (.struct exMFields) v' = canonical (.struct exMFields) (.struct exMVals) :=
   unmarshal_marshal_map_partial exMFields _ exM_ty exM_val exM_ok exM_len
 
